@@ -167,41 +167,10 @@ def run(facts, chk, tier, only=None):
          range(256), 'valid')
 
     # ---------------------------------------------------------------- uses
-    def use_add_to_dict():
-        # the and_modify closure of SkaDict::add_to_dict must index IUPAC with base*256 + existing
-        cl = facts.closures_of('ska_dict::SkaDict::add_to_dict')
-        hits = []
-        for c in cl:
-            eb = ExprBuilder(c)
-            for blk in c.blocks:
-                for s in blk.stmts:
-                    if s.k == 'assign' and s.rv.k == 'use' and s.rv.ops[0].k == 'copy':
-                        pl = s.rv.ops[0].place
-                        if pl.proj and pl.proj[-1]['k'] == 'index':
-                            e = eb.place(pl)
-                            if any(x[0] == 'cdef' and x[1].endswith('IUPAC') and not x[1].endswith('RC_IUPAC')
-                                   for x in subexprs(e)) or 'IUPAC' in repr(e):
-                                hits.append((c, s, e))
-        if not hits:
-            raise AnchorLost('no IUPAC[...] read in the closures of add_to_dict')
-        from ..expr import affine
-        out = []
-        for c, s, e in hits:
-            idx = e[2]
-            af = affine(idx, atom_of=_atom_name)
-            out.append((c, s, idx, af))
-        return out
-
-    r = chk.guard('C15.use', 'C15.use:add_to_dict', use_add_to_dict)
-    if r:
-        for c, s, idx, af in r:
-            want = ({'base': 256, 'existing': 1}, 0)
-            if af == want:
-                chk.ok('C15.use', 'C15.use:add_to_dict', s.span, 'index = 256*base + *b (%s)' % show(idx),
-                       sample={'site': s.span, 'index': show(idx)})
-            else:
-                chk.violation('C15.use', 'C15.use:add_to_dict', where=s.span,
-                              detail='IUPAC index is %s (affine %r), layout verified is 256*base + existing' % (show(idx), af))
+    # use site 1: SkaDict::add_to_dict / add_palindrome_to_dict applied to every (stored code, new base) cell give the code of
+    # the union (interpreted; shared with C01.pal).  Was a shape rule on the IUPAC[...] index expression inside the closure.
+    from . import c01
+    chk.guard('C15.use', 'C15.use:tables', lambda: c01.check_tables(facts, chk, 'C15.use'))
 
     def use_map():
         cl = facts.closures_of('ska_ref::RefSka::map')
